@@ -116,6 +116,13 @@ func (x *Exec) doCallValues(fr *Frame, cc *ssa.CallCommon, fnv Value, args []Val
 func (x *Exec) callFunction(fr *Frame, callee *ssa.Function, args []Value, free []Value, pos token.Pos, bc Term, st State, site string) []Value {
 	key := fnKey(callee)
 	if callee.Pkg == x.E.Pkg || callee.Pkg == nil && callee.Blocks != nil && callee.Synthetic != "" {
+		// a function verified in mode "spec" sees the "@spec" contract of a callee that has one
+		if x.TopCon != nil && x.TopCon.Mode == "spec" {
+			if con := x.E.Contracts[key+"@spec"]; con != nil && con.HasBody && !con.Inline {
+				x.UsedCon[key+"@spec"] = true
+				return x.applyContract(fr, callee, con, args, pos, bc, st, site)
+			}
+		}
 		if con := x.E.Contracts[key]; con != nil && con.HasBody && !con.Inline {
 			x.UsedCon[key] = true
 			return x.applyContract(fr, callee, con, args, pos, bc, st, site)
